@@ -146,6 +146,33 @@ class PackSites:
                         self.reset_nodes[n.id] = key
                     if key in self.track_lists:
                         self.track_reset_nodes[n.id] = key
+        # A tracked list (a collection whose elements get their loose file unlinked) may only be fed next to a staging
+        # site: the same statement list must stage the row of that very object.  A feed anywhere else (e.g. keys found by
+        # an earlier index query) means loose files are removed for objects this call did not write and commit.
+        def _stmt_and_block(a):
+            st = a
+            while st is not None and not isinstance(st, ast.stmt):
+                st = getattr(st, '_parent', None)
+            return st, getattr(st, '_parent', None) if st is not None else None
+
+        stage_blocks = {}
+        for nid2, key in self.stage_nodes.items():
+            n2 = g.nodes[nid2]
+            st, blk = _stmt_and_block(n2.ast)
+            stage_blocks.setdefault(n2.frame.id, set()).add(id(blk))
+        self.foreign_feeds = {}  # track list -> [node]
+        for nid2, key in self.track_nodes.items():
+            n2 = g.nodes[nid2]
+            st, blk = _stmt_and_block(n2.ast)
+            if id(blk) not in stage_blocks.get(n2.frame.id, ()):
+                self.foreign_feeds.setdefault(key, []).append(n2)
+        for nid2, key in self.track_reset_nodes.items():
+            n2 = g.nodes[nid2]
+            if n2.kind == 'stmt' and isinstance(n2.ast, (ast.Assign, ast.AnnAssign)) and n2.ast.value is not None:
+                v = n2.ast.value
+                empty = (isinstance(v, (ast.List, ast.Set, ast.Tuple)) and not v.elts) or (isinstance(v, ast.Call) and not v.args and not v.keywords)
+                if not empty:
+                    self.foreign_feeds.setdefault(key, []).append(n2)
 
 
 # state indices
@@ -254,6 +281,12 @@ class PackMachine(Machine):
                 if name == 'DB_ROLLBACK' or e[1] == 'op':
                     s[R] = 'rolledback'
             elif name == 'UNLINK' and nid in S.tracked_unlinks:
+                ff = S.foreign_feeds.get(S.tracked_unlinks[nid])
+                if ff:
+                    viol.append(Violation(self.rule_unlink, node, st,
+                                          f'loose files are unlinked for the keys of `{S.tracked_unlinks[nid][1]}`, which is also filled at {ff[0].where} '
+                                          f'(`{ff[0].text(80)}`) away from any staging site: those objects were not written and committed by this call, '
+                                          'so the decision rests on an earlier index query (a possibly stale snapshot) and the only copy of an object can be removed'))
                 if s[T] and s[R] != 'committed':
                     viol.append(Violation(self.rule_unlink, node, st,
                                           f'loose file of an object unlinked while its index row is only "{s[R]}" '
